@@ -610,8 +610,9 @@ package scipipe
 //@ define isSubstMod(m string) bool = fullMatch(m, "s/[^/%\n]+/[^/%\n]*/")
 //@ define isTrimMod(m string) bool = fullMatch(m, "%[^\n]*") && !matches(m, "s\\/([^\\/]+)\\/([^\\/]*)\\/")
 //@ define docMod(m string) bool = m == "basename" || m == "dirname" || isTrimMod(m) || isSubstMod(m)
-//@ define substA(m string) string = substr(m, 2, indexOf(substr(m, 2, len(m) - 2), "/"))
-//@ define substB(m string) string = substr(m, 3 + len(substA(m)), len(m) - 4 - len(substA(m)))
+//@ ghost func substA(m string) string
+//@ ghost func substB(m string) string
+//@ axiom subst.decomp: forall m string :: isSubstMod(m) ==> m == "s/" + substA(m) + "/" + substB(m) + "/" && len(substA(m)) > 0 && !contains(substA(m), "/") && !contains(substB(m), "/") && !contains(substA(m), "\n") && !contains(substB(m), "\n")
 //@ define trimSuffix(x string, s string) string = ite(len(x) > len(s) && hasSuffix(x, s), substr(x, 0, len(x) - len(s)), x)
 //@ define modstep(x string, m string) string = ite(m == "basename", afterLastSlash(x), ite(m == "dirname", beforeLastSlash(x), ite(hasPrefix(m, "%"), trimSuffix(x, substr(m, 1, len(m) - 1)), ite(isSubstMod(m), replaceFirst(x, substA(m), substB(m)), x))))
 
